@@ -4,22 +4,65 @@
 use super::cfg::Cfg;
 use super::world::{Ev, World};
 use crate::common::Violation;
+
+/// A system the explorer can search: a deterministic function from (configuration, event history)
+/// to a state, with a menu of enabled events (each with a deviation cost) and a canonical key.
+pub trait Sys: Sized {
+    type Ev: Clone + std::fmt::Debug + Send + Sync;
+    type Cfg: Send + Sync;
+    fn replay(cfg: &Arc<Self::Cfg>, history: &[Self::Ev]) -> Self;
+    fn set_spent(&mut self, spent: u32);
+    fn spent(&self) -> u32;
+    fn enabled(&mut self) -> Vec<(Self::Ev, u32)>;
+    fn apply(&mut self, ev: &Self::Ev);
+    fn violations(&self) -> Vec<Violation>;
+    fn dead(&self) -> bool;
+    fn key(&mut self) -> u128;
+    fn closure(self, steps: usize) -> Vec<Violation>;
+    fn outcome_hash(&self) -> u64;
+    fn budget(cfg: &Self::Cfg) -> u32;
+    fn max_depth(cfg: &Self::Cfg) -> usize;
+    fn closure_steps(cfg: &Self::Cfg) -> Option<usize>;
+    fn name(cfg: &Self::Cfg) -> String;
+    fn describe(cfg: &Self::Cfg) -> String;
+    fn ev_text(ev: &Self::Ev) -> String { format!("{:?}", ev) }
+}
+
+impl Sys for World {
+    type Ev = Ev;
+    type Cfg = Cfg;
+    fn replay(cfg: &Arc<Cfg>, history: &[Ev]) -> World { World::replay(cfg, history, false) }
+    fn set_spent(&mut self, spent: u32) { self.spent = spent; }
+    fn spent(&self) -> u32 { self.spent }
+    fn enabled(&mut self) -> Vec<(Ev, u32)> { World::enabled(self) }
+    fn apply(&mut self, ev: &Ev) { World::apply(self, ev) }
+    fn violations(&self) -> Vec<Violation> { self.violations.clone() }
+    fn dead(&self) -> bool { self.dead }
+    fn key(&mut self) -> u128 { World::key(self) }
+    fn closure(self, steps: usize) -> Vec<Violation> { self.fair_closure(steps) }
+    fn outcome_hash(&self) -> u64 { super::world::hash_of(&self.ops.iter().map(|o| (o.kind, o.result.clone().map(|r| r.is_ok()), o.sends.len())).collect::<Vec<_>>()) }
+    fn budget(cfg: &Cfg) -> u32 { cfg.budget }
+    fn max_depth(cfg: &Cfg) -> usize { cfg.max_depth }
+    fn closure_steps(cfg: &Cfg) -> Option<usize> { if cfg.closure { Some(cfg.closure_steps) } else { None } }
+    fn name(cfg: &Cfg) -> String { cfg.name.clone() }
+    fn describe(cfg: &Cfg) -> String { cfg.describe() }
+}
 use rayon::prelude::*;
 use std::collections::{BTreeMap, HashSet};
 use std::sync::atomic::{AtomicBool, AtomicU64, Ordering};
 use std::sync::{Arc, Mutex};
-use std::time::{Duration, Instant};
+use std::time::Duration;
 
 #[derive(Clone, Debug)]
-pub struct Found {
+pub struct Found<E> {
     pub violation: Violation,
-    pub history: Vec<Ev>,
+    pub history: Vec<E>,
     pub in_closure: bool,
     pub count: u64,
 }
 
-#[derive(Clone, Debug, Default)]
-pub struct ConfigResult {
+#[derive(Clone, Debug)]
+pub struct ConfigResult<E> {
     pub cfg_name: String,
     pub cfg_text: String,
     pub states: u64,
@@ -32,7 +75,7 @@ pub struct ConfigResult {
     pub distinct_outcomes: u64,
     pub capped: bool,
     pub wall_s: f64,
-    pub found: Vec<Found>,
+    pub found: Vec<Found<E>>,
     pub samples: Vec<Vec<String>>,
     pub events_seen: BTreeMap<String, u64>,
 }
@@ -41,21 +84,21 @@ pub struct Limits {
     pub max_states: u64,
     pub max_wall: Duration,
     /// debugging aid: record key -> (depth, history) of every state
-    pub trace: Option<Arc<Mutex<std::collections::HashMap<u128, (usize, Vec<Ev>)>>>>,
+    pub trace: Option<Arc<Mutex<std::collections::HashMap<u128, (usize, Vec<String>)>>>>,
 }
 
-struct Node {
-    history: Vec<Ev>,
+struct Node<E> {
+    history: Vec<E>,
     spent: u32,
 }
 
 const SHARDS: usize = 256;
 
-pub fn explore(cfg: &Arc<Cfg>, limits: &Limits, pool: &rayon::ThreadPool) -> ConfigResult {
-    let started = Instant::now();
+pub fn explore<S: Sys>(cfg: &Arc<S::Cfg>, limits: &Limits, pool: &rayon::ThreadPool) -> ConfigResult<S::Ev> {
+    let started_ns = crate::vclock::real_ns();
     let seen: Vec<Mutex<HashSet<u128>>> = (0..SHARDS).map(|_| Mutex::new(HashSet::new())).collect();
     let outcomes: Mutex<HashSet<u64>> = Mutex::new(HashSet::new());
-    let found: Mutex<BTreeMap<(String, String), Found>> = Mutex::new(BTreeMap::new());
+    let found: Mutex<BTreeMap<(String, String), Found<S::Ev>>> = Mutex::new(BTreeMap::new());
     let events_seen: Mutex<BTreeMap<String, u64>> = Mutex::new(BTreeMap::new());
     let transitions = AtomicU64::new(0);
     let executions = AtomicU64::new(0);
@@ -64,7 +107,7 @@ pub fn explore(cfg: &Arc<Cfg>, limits: &Limits, pool: &rayon::ThreadPool) -> Con
     let states = AtomicU64::new(1);
     let capped = AtomicBool::new(false);
 
-    let record = |violation: &Violation, history: &[Ev], in_closure: bool| {
+    let record = |violation: &Violation, history: &[S::Ev], in_closure: bool| {
         let mut map = found.lock().unwrap();
         let key = (violation.property.clone(), violation.signature.clone());
         match map.get_mut(&key) {
@@ -78,71 +121,72 @@ pub fn explore(cfg: &Arc<Cfg>, limits: &Limits, pool: &rayon::ThreadPool) -> Con
 
     // initial state
     {
-        let mut w = World::new(cfg.clone());
+        let mut w = S::replay(cfg, &[]);
         let k = w.key();
         seen[(k as usize) % SHARDS].lock().unwrap().insert(k);
     }
 
-    let mut frontier: Vec<Node> = vec![Node { history: Vec::new(), spent: 0 }];
+    let mut frontier: Vec<Node<S::Ev>> = vec![Node { history: Vec::new(), spent: 0 }];
     let mut samples: Vec<Vec<String>> = Vec::new();
     let mut depth = 0usize;
     let mut depth_completed = 0usize;
     let mut max_depth = 0usize;
 
-    while !frontier.is_empty() && depth < cfg.max_depth {
-        let next: Vec<Node> = pool.install(|| {
+    while !frontier.is_empty() && depth < S::max_depth(cfg) {
+        let next: Vec<Node<S::Ev>> = pool.install(|| {
             frontier.par_iter().flat_map_iter(|node| {
-                let mut out: Vec<Node> = Vec::new();
+                let mut out: Vec<Node<S::Ev>> = Vec::new();
                 if capped.load(Ordering::Relaxed) { return out.into_iter(); }
-                if started.elapsed() > limits.max_wall || states.load(Ordering::Relaxed) > limits.max_states {
+                if Duration::from_nanos(crate::vclock::real_ns() - started_ns) > limits.max_wall || states.load(Ordering::Relaxed) > limits.max_states {
                     capped.store(true, Ordering::Relaxed);
                     return out.into_iter();
                 }
-                let mut parent = World::replay(cfg, &node.history, false);
-                parent.spent = node.spent;
+                let mut parent = S::replay(cfg, &node.history);
+                parent.set_spent(node.spent);
                 executions.fetch_add(1, Ordering::Relaxed);
                 let enabled = parent.enabled();
-                if !parent.violations.is_empty() {
+                if !parent.violations().is_empty() {
                     // enabled() itself can observe a panic in get_next_service_timepoint
-                    for v in parent.violations.clone() { record(&v, &node.history, false); }
+                    for v in parent.violations() { record(&v, &node.history, false); }
                     return out.into_iter();
                 }
                 drop(parent);
                 let mut any = false;
                 for (ev, cost) in enabled {
-                    if node.spent + cost > cfg.budget { continue; }
+                    if node.spent + cost > S::budget(cfg) { continue; }
                     any = true;
-                    let mut w = World::replay(cfg, &node.history, false);
-                    w.spent = node.spent + cost;
+                    let mut w = S::replay(cfg, &node.history);
+                    w.set_spent(node.spent + cost);
                     w.apply(&ev);
                     executions.fetch_add(1, Ordering::Relaxed);
                     transitions.fetch_add(1, Ordering::Relaxed);
                     let mut history = node.history.clone();
                     history.push(ev.clone());
-                    if !w.violations.is_empty() {
-                        for v in w.violations.clone() { record(&v, &history, false); }
+                    if !w.violations().is_empty() {
+                        for v in w.violations() { record(&v, &history, false); }
                         continue;
                     }
-                    if w.dead { continue; }
+                    if w.dead() { continue; }
                     let k = w.key();
                     let fresh = seen[(k as usize) % SHARDS].lock().unwrap().insert(k);
                     if !fresh { continue; }
                     states.fetch_add(1, Ordering::Relaxed);
-                    if let Some(trace) = &limits.trace { trace.lock().unwrap().insert(k, (history.len(), history.clone())); }
+                    if let Some(trace) = &limits.trace { trace.lock().unwrap().insert(k, (history.len(), history.iter().map(|e| S::ev_text(e)).collect())); }
                     {
                         let name = format!("{:?}", ev);
                         let name = name.split('(').next().unwrap_or("").to_string();
                         *events_seen.lock().unwrap().entry(name).or_insert(0) += 1;
                     }
-                    let outcome = super::world::hash_of(&w.ops.iter().map(|o| (o.kind, o.result.clone().map(|r| r.is_ok()), o.sends.len())).collect::<Vec<_>>());
+                    let outcome = w.outcome_hash();
                     outcomes.lock().unwrap().insert(outcome);
-                    if cfg.closure {
+                    if let Some(steps) = S::closure_steps(cfg) {
                         closures.fetch_add(1, Ordering::Relaxed);
-                        let spent = w.spent;
-                        for v in w.fair_closure(cfg.closure_steps) { record(&v, &history, true); }
+                        let spent = w.spent();
+                        for v in w.closure(steps) { record(&v, &history, true); }
                         out.push(Node { history, spent });
                     } else {
-                        out.push(Node { history, spent: w.spent });
+                        let spent = w.spent();
+                        out.push(Node { history, spent });
                     }
                 }
                 if !any { terminal.fetch_add(1, Ordering::Relaxed); }
@@ -155,25 +199,25 @@ pub fn explore(cfg: &Arc<Cfg>, limits: &Limits, pool: &rayon::ThreadPool) -> Con
         if !next.is_empty() {
             max_depth = depth;
             if samples.len() < 2 || depth % 4 == 0 {
-                if let Some(n) = next.get(next.len() / 2) { samples.push(n.history.iter().map(|e| e.to_text()).collect()); }
+                if let Some(n) = next.get(next.len() / 2) { samples.push(n.history.iter().map(|e| S::ev_text(e)).collect()); }
             }
             if let Some(n) = next.last() {
                 // keep the deepest seen so far as the last sample
                 if samples.len() > 4 { samples.truncate(4); }
-                samples.push(n.history.iter().map(|e| e.to_text()).collect());
+                samples.push(n.history.iter().map(|e| S::ev_text(e)).collect());
             }
         }
         frontier = next;
     }
-    if !frontier.is_empty() && depth >= cfg.max_depth {
+    if !frontier.is_empty() && depth >= S::max_depth(cfg) {
         // depth horizon reached with states left: exploration is complete only up to this depth
     }
 
     let found = found.into_inner().unwrap().into_values().collect();
     let distinct_outcomes = outcomes.lock().unwrap().len() as u64;
     ConfigResult {
-        cfg_name: cfg.name.clone(),
-        cfg_text: cfg.describe(),
+        cfg_name: S::name(cfg),
+        cfg_text: S::describe(cfg),
         states: states.load(Ordering::Relaxed),
         transitions: transitions.load(Ordering::Relaxed),
         executions: executions.load(Ordering::Relaxed),
@@ -183,7 +227,7 @@ pub fn explore(cfg: &Arc<Cfg>, limits: &Limits, pool: &rayon::ThreadPool) -> Con
         terminal_states: terminal.load(Ordering::Relaxed),
         distinct_outcomes,
         capped: capped.load(Ordering::Relaxed),
-        wall_s: started.elapsed().as_secs_f64(),
+        wall_s: (crate::vclock::real_ns() - started_ns) as f64 / 1e9,
         found,
         samples,
         events_seen: events_seen.into_inner().unwrap(),
@@ -191,11 +235,11 @@ pub fn explore(cfg: &Arc<Cfg>, limits: &Limits, pool: &rayon::ThreadPool) -> Con
 }
 
 /// Re-executes a history twice and checks that both runs observe the same thing.
-pub fn confirm(cfg: &Arc<Cfg>, history: &[Ev], signature: &(String, String), in_closure: bool) -> Result<(), String> {
-    let run = |hist: &[Ev]| -> (Vec<(String, String)>, u128) {
-        let mut w = World::replay(cfg, hist, false);
-        let key = if w.dead { 0 } else { w.key() };
-        let violations = if in_closure && !w.dead { w.fair_closure(cfg.closure_steps) } else { w.violations.clone() };
+pub fn confirm<S: Sys>(cfg: &Arc<S::Cfg>, history: &[S::Ev], signature: &(String, String), in_closure: bool) -> Result<(), String> {
+    let run = |hist: &[S::Ev]| -> (Vec<(String, String)>, u128) {
+        let mut w = S::replay(cfg, hist);
+        let key = if w.dead() { 0 } else { w.key() };
+        let violations = if in_closure && !w.dead() { w.closure(S::closure_steps(cfg).unwrap_or(60)) } else { w.violations() };
         (violations.iter().map(|v| (v.property.clone(), v.signature.clone())).collect(), key)
     };
     let (a, ka) = run(history);
